@@ -167,13 +167,19 @@ fn render(j: &J, style: u8, reverse: bool, out: &mut String) {
 
 const MAXI: i64 = 9007199254740991;
 
-pub fn run(_tier: &str) -> Report {
+pub fn run(tier: &str) -> Report {
+    let thorough = tier == "thorough";
     let chars = ['a', '"', '\\', '/', '\u{0}', '\u{1}', '\u{8}', '\u{c}', '\n', '\u{1f}', '\u{7f}', '\u{80}', '\u{e9}', '\u{2028}', '\u{1F600}'];
     let mut strs: Vec<String> = vec![String::new()];
     for a in chars {
         strs.push(a.to_string());
         for b in chars {
             strs.push(format!("{a}{b}"));
+            if thorough {
+                for c in chars {
+                    strs.push(format!("{a}{b}{c}"));
+                }
+            }
         }
     }
     let ints = [0, 1, -1, 42, MAXI, -MAXI, MAXI - 1, -MAXI + 1];
@@ -290,7 +296,7 @@ pub fn run(_tier: &str) -> Report {
     let _ = CanonicalJsonObject::new();
     Report {
         bound: format!(
-            "{} values ({} strings = all of length 0..2 over 15 characters incl. controls / DEL / astral, 8 integers around 0 and +-(2^53-1), arrays <= 2, objects <= 2 entries over 13 keys incl. duplicates, nested once) x 4 text spellings (key order, whitespace, \\uXXXX / short / \\/ escapes); {} non-representable number texts",
+            "{} values ({} strings = all of length 0..2 (thorough tier: 0..3) over 15 characters incl. controls / DEL / astral, 8 integers around 0 and +-(2^53-1), arrays <= 2, objects <= 2 entries over 13 keys incl. duplicates, nested once) x 4 text spellings (key order, whitespace, \\uXXXX / short / \\/ escapes); {} non-representable number texts",
             values.len(),
             strs.len(),
             nr
